@@ -23,6 +23,8 @@ CHECKS = {
              ref="§5 C16", note="clock symbolic ints; executor replaced by a synchronous call; threads modelled at set-operation granularity (GIL); verification.py (NIP-05) cannot be imported (nostr_bot absent) and is outside. "),
  "C20": dict(text="NotifyClient.connect and NotifyServer.handle_notify driven over a fake stream whose chunk boundaries, disconnect offset and handler schedule are symbolic selectors: ids looked up == ids announced (intact, in order, once), nothing for a truncated id, receivers see whole frames only, no echo to the sender, announce iff notifier enabled.",
              ref="§5 C20", note="asyncio streams replaced by a fake reader implementing read/readexactly per the asyncio contract; <=2 ids, 2 senders + 1 receiver; real TCP outside. "),
+ "C01": dict(text="LMDB residual matcher: the real code generator (kv.compile_match_from_query, fed by the real planner) run on holes and its generated predicate executed symbolically against reference NIP-01 matching for 8 filter shapes, all values symbolic (ints) or solver-selected (strings); plus the real repr()-based compilation for 13 hostile names/values (quotes, backslash, NUL, injection attempts).",
+             ref="§5 C01", note="hole technique (DESIGN 2.5): repr() literals of str/int/tuple are assumed to evaluate back to the value and that assumption is validated by ob_literal_roundtrip on the hostile pool. SQL side: see evidence for what is currently included. "),
 }
 NA = {}
 def main():
